@@ -364,6 +364,12 @@ static void on_trailing(const uint8_t *b, size_t n, int kind, const char *label,
     process_input(b, n, label, kind);
     DEPTHS = depths3; NDEPTHS = 3;
 }
+static void on_doc_sib(vf_gen *g, void *u)
+{
+    (void) u;
+    if (vf_deadline_passed()) { g->stop = true; return; }
+    if (take()) { vf_count(CT_DOCS, 1); process_input(g->doc.bytes, g->doc.len, vf_shape(&g->doc), g->doc.root_kind); }
+}
 static void on_doc_big(vf_gen *g, void *u)
 {
     (void) u;
@@ -424,6 +430,10 @@ static void worker(int w, int W, uint64_t start)
         g.cb = on_doc;
         vf_gen_run(&g);
     }
+    /* sibling family: every pair (thorough: and triple) of small sibling subtrees, without mutants */
+    memset(&g, 0, sizeof g);
+    g.cb = on_doc_sib;
+    vf_sibling_run(&g, vf_g.thorough ? 2 : 1);
 }
 
 static void replay_main(void)
